@@ -132,6 +132,25 @@ class Report:
             self.violations.append((nm, path, fl.get("confirmed", False)))
 
     # ------------------------------------------------------------------------------------------
+    def run_canaries(self, modules):
+        """Thorough tier: the canary mutants of the contract modules this property uses are applied to scratch copies of
+        /repo/src (temp dir, removed) and must each turn a named obligation red.  The outcome is evidence about the *checker*;
+        it is reported (stdout line CANARY, evidence coverage.canaries) and never changes the exit code of the property."""
+        from lib import canary
+
+        try:
+            res = canary.run_canaries(only_modules=list(modules))
+        except Exception as e:  # pragma: no cover
+            self.notes.append(f"canary run failed: {type(e).__name__}: {e}")
+            return
+        ok = sum(1 for r in res if r.get("killed"))
+        bad = [r["id"] for r in res if r.get("killed") is False]
+        skipped = [r["id"] for r in res if r.get("killed") is None]
+        self.extra["canaries"] = dict(modules=list(modules), behaved_as_expected=ok, not_detected=bad, skipped=skipped, results=res)
+        print(f"CANARY property={self.prop} modules={','.join(modules)} detected={ok} not-detected={len(bad)} skipped={len(skipped)}")
+        for cid in bad:
+            self.assumptions.append(f"canary mutant '{cid}' was NOT detected by the deductive layer: the contracts are weaker than intended for that edit")
+
     def finish(self, min_obligations=1):
         wall = time.time() - self.t0
         n_obl = len(self.deductive) + sum(e["count"] for e in self.enumerations)
